@@ -100,6 +100,7 @@ func checkRoleTable(c *Ctx, rule, key, text string, got map[string]string, errs 
 
 func runC14(c *Ctx) {
 	p := c.P
+	sharedDigestRule(c, p, "R1", "transports/obfs2")
 	spec, err := loadSpec("obfs2.json")
 	if err != nil {
 		c.Obl("R0", "spec", "spec table loads").Undecide("%v", err)
